@@ -79,8 +79,8 @@ func (e *Engine) invokeDeferred(c *Config, d *DeferRec) {
 
 // allowedExternal lists std functions whose real bodies are interpreted.
 var allowedExternal = map[string]bool{
-	"errors.New":                   true,
-	"(*errors.errorString).Error":  true,
+	"errors.New":                             true,
+	"(*errors.errorString).Error":            true,
 	"(*context.deadlineExceededError).Error": false,
 }
 
@@ -125,6 +125,11 @@ func (e *Engine) dispatch(c *Config, f *Frame, rest func(c *Config)) bool {
 					nd := *f.pending
 					nd.Fn = &RefV{Alts: []RefAlt{{TS.True, a.R}}}
 					n.top().pending = &nd
+					n.top().opTag += fmt.Sprintf("%p;", a.R)
+					if _, isNil := a.R.(NilRef); isNil {
+						n.top().opTag += "nil;"
+					}
+					n.top().opTagBlk, n.top().opTagIdx = n.top().blk.Index, n.top().idx
 					e.enqueue(n)
 				}
 				c.g = TS.False
@@ -261,8 +266,18 @@ func (e *Engine) pushFrame(c *Config, fn *ssa.Function, args []Value, bindings [
 }
 
 func (e *Engine) runModel(cc *CallCtx, m *Model, name string) bool {
-	e.stubsSeen[name]++
 	c := cc.c
+	// method models need a unique receiver: fork on the receiver argument if necessary
+	if strings.HasPrefix(name, "(*") && len(cc.args) > 0 && cc.site.Call != nil && !cc.site.Common.IsInvoke() {
+		if rv, ok := cc.args[0].(*RefV); ok && len(pruneRefUnder(rv, c.g).Alts) > 1 && len(cc.site.Common.Args) > 0 {
+			if _, isFn := cc.site.Common.Value.(*ssa.Function); isFn {
+				if _, single := e.concretizeReg(c, cc.f, cc.site.Common.Args[0]); !single {
+					return false
+				}
+			}
+		}
+	}
+	e.stubsSeen[name]++
 	if m.Takeover != nil {
 		return m.Takeover(cc)
 	}
